@@ -1,5 +1,5 @@
 From Coq Require Import List NArith.
-From Tink Require Import XBase Bytes AeadFrame Ctr EtM Polyval GcmSiv Cmac Xaes Envelope.
+From Tink Require Import XBase Bytes AeadFrame Ctr EtM Polyval GcmSiv Cmac Xaes Envelope EnvelopeDek GcmSivSpec.
 Require Import ExtrOcamlBasic.
 Extraction "m.ml" xb_add xb_mul xb_div_eucl output_prefix
   aesgcm_enc aesgcm_dec chacha_enc chacha_dec chacha_subtle_enc chacha_subtle_dec
@@ -7,4 +7,5 @@ Extraction "m.ml" xb_add xb_mul xb_div_eucl output_prefix
   etm_enc etm_dec etm_subtle_dec etm_valid
   siv_enc siv_dec polyval_impl polyval_spec
   xaes_enc xaes_dec
-  env_enc env_dec build_envelope parse_envelope dek_proto dek_key.
+  env_enc env_dec build_envelope parse_envelope dek_proto dek_key
+  dek_enc dek_dec dek_ivlen dek_tag rfc8452_encrypt.
